@@ -45,6 +45,11 @@ UNITS = {
         'timeout': 600, 'witness': ['witness-k11f'], 'replay': 'replay-k11f',
         'title': 'toml_write f64 / f32 writer special cases: nan / -nan / 0.0 / -0.0 carry the sign and are float literals (bounded: representatives)',
     },
+    'K11s': {
+        'engine': 'kani', 'crate': 'toml_write', 'harnesses': ['k11_f64_structure', 'k11_f32_structure'],
+        'complete': True, 'timeout': 600, 'witness': ['witness-k11f'], 'replay': 'replay-k11f',
+        'title': 'toml_write float writers, every f64 / f32 (core float Display stubbed by a token): NaN -> nan / -nan by sign, zero -> 0.0 / -0.0, infinity -> Display alone (never inf.0), anything else -> Display digits with an optional .0',
+    },
     'K6e': {
         'engine': 'kani', 'crate': 'toml_edit',
         'harnesses': ['k6_edit_serialize_u64', 'k6_edit_serialize_i64', 'k6_edit_serialize_narrow',
@@ -218,7 +223,7 @@ UNITS = {
 PLAN = {
     'C10': {'quick': ['V1', 'K1'], 'thorough': ['V1', 'K1']},
     'C04': {'quick': ['V1', 'V3', 'V4', 'V5', 'V6', 'V7', 'V9', 'V10', 'V11', 'K1', 'K12', 'K8q'], 'thorough': ['V1', 'V3', 'V4', 'V5', 'V6', 'V7', 'V9', 'V10', 'V11', 'K1', 'K12', 'K8t', 'K3t', 'K5']},
-    'C11': {'quick': ['K7', 'K7s', 'K6e', 'K6t', 'K6d', 'V8', 'V12', 'K11f'], 'thorough': ['K7', 'K7s', 'K6e', 'K6t', 'K6d', 'V8', 'V12', 'K11f']},
+    'C11': {'quick': ['K7', 'K7s', 'K6e', 'K6t', 'K6d', 'V8', 'V12', 'K11f', 'K11s'], 'thorough': ['K7', 'K7s', 'K6e', 'K6t', 'K6d', 'V8', 'V12', 'K11f', 'K11s']},
     'C01': {'quick': ['K1', 'K7', 'V3', 'V4', 'V8', 'V9', 'V16', 'K2'], 'thorough': ['K1', 'K7', 'V3', 'V4', 'V8', 'V9', 'V16', 'K2', 'K2y', 'K5']},
     'C02': {'quick': ['K2', 'K7s', 'K6t', 'K6d', 'V5', 'V7', 'V8', 'V9', 'V11', 'V12', 'V15'], 'thorough': ['K2', 'K2y', 'K7s', 'K6t', 'K6d', 'V5', 'V7', 'V8', 'V9', 'V11', 'V12', 'V15', 'K5']},
     'C05': {'quick': ['V3', 'K12'], 'thorough': ['V3', 'K12']},
